@@ -20,7 +20,7 @@ import (
 
 func init() {
 	register(&Prop{ID: "C14", Run: c14Run,
-		Rule: "foreach: item source {literal items, list query, dotted list query, leaf query, container query, list of containers, missing path} x variable {default, named} x body {ext trace, log, both} + logging child + failing position {none, top-level abort/ext-fail (first item), conditional child at the first flagged item, non-boolean condition}; loop: bound n in 0..6 x failure in iteration k (body or post) x counter written by post or body x with/without init; call: argsPath {default, single key, dotted 2 and 3, templated} x static/templated argument x nested callee with its own argsPath x failure {none, inner, outer} x pre-existing data at the path's parent; callrep: ONE call operation that runs m = 0..5 times with argument templates (top-level and nested) whose input changes between the runs — in a loop body (input = counter), in a forEach body (input = item; call directly among the body's operations or in a `steps` child; literal items / list query) or as the same operation value passed to Execute repeatedly — x argsPath x failure from the k-th run on: the m-th run must see the arguments rendered against the data of the m-th run (closed-form trace); defs: all sequences of length<=4 over {define f=first, define f=second, define g, call f, call g, call undefined}; rand: random nested programs (forEach in forEach, loops and calls inside bodies, set/template bodies, depth<=3) compared with the model only. Every program runs twice (Go structs, generated YAML). Non-trivial: at least one iteration / call actually executes. Distinct = distinct canonical case JSON.",
+		Rule: "foreach: item source {literal items, list query, dotted list query, leaf query, container query, list of containers, missing path} x variable {default, named} x body {ext trace, log, both} + logging child + failing position {none, top-level abort/ext-fail (first item), conditional child at the first flagged item, non-boolean condition}; loop: bound n in 0..6 x failure in iteration k (body or post) x counter written by post or body x with/without init; call: argsPath {default, single key, dotted 2 and 3, templated} x static/templated argument x nested callee with its own argsPath x failure {none, inner, outer} x pre-existing data at the path's parent; callrep: ONE call operation that runs m = 0..5 times with argument templates (top-level and nested) whose input changes between the runs — in a loop body (input = counter), in a forEach body (input = item; call directly among the body's operations or in a `steps` child; literal items / list query) or as the same operation value passed to Execute repeatedly — x argsPath x failure from the k-th run on: the m-th run must see the arguments rendered against the data of the m-th run (closed-form trace); defs: all sequences of length<=4 over {define f=first, define f=second, define g, call f, call g, call undefined}; nest: 1..3 iteration mechanisms nested in each other — forEach (literal items / list query, default or custom variable) / loop (bound 0..3) / call, each holding the next one among its body's OPERATIONS or in a `steps` child — whose innermost body reads every variable in scope when it runs (call arguments, or a template operation printed by a callable), x optional ext trace per body x failure from the k-th innermost run on: closed-form trace = product of the layers' items in order up to the failure, variables and arguments gone, nothing else disturbed; rand: random nested programs (forEach in forEach, loops and calls inside bodies, set/template bodies, depth<=3) compared with the model and with the independent Go reference interpreter of c12_ref.go (direct predicate; the reference answers inside its domain: plain dotted key paths, container queries with at most one key). Every program runs twice (Go structs, generated YAML). Non-trivial: at least one iteration / call actually executes. Distinct = distinct canonical case JSON.",
 		Assumptions: []string{
 			"template semantics owned by the model: literal text and {{ .a.b }} field chains of scalars; strconv.ParseBool",
 			"loop counters are written by the harness' own ext action `inc` (data[id]++, data[id_go] := data[id] < n, data[id_end] := !(data[id] < n)), mirrored by the model",
@@ -892,6 +892,14 @@ func c14Run(c *Ctx) {
 		}
 		c.Do("callrep", p)
 	}
+	for _, p := range c14NestBasics() {
+		c.Tick()
+		c.Do("nest", p)
+	}
+	for i := 0; i < c.N(700); i++ {
+		c.Tick()
+		c.Do("nest", c14GenNest(r))
+	}
 	alphabet := []string{"d1", "d2", "dg", "cf", "cg", "cn"}
 	if c.Thorough() && !c.searchMode {
 		// all sequences of length <= 4
@@ -1123,6 +1131,52 @@ func c14Eval(c *Ctx, kind string, raw []byte) {
 			c.Direct("call-no-other-data-disturbed"+v, c14FlatWire(c14StripCounters(run.dataWire())) == c14FlatWire(c14StripCounters(data)),
 				map[string]any{"before": data, "after": run.dataWire()})
 		}
+	case "nest":
+		var p c14Nest
+		if err := json.Unmarshal(raw, &p); err != nil {
+			panic(err)
+		}
+		p.norm()
+		data, prog = p.data(), p.prog()
+		want, failed, runs := p.expect()
+		if runs >= 2 && len(p.Layers) >= 2 {
+			c.Nontrivial()
+		}
+		shape := ""
+		for k, l := range p.Layers {
+			shape += "/" + l.Kind
+			if k > 0 && l.Kind == "foreach" && l.Var != nil && l.Place == "ops" {
+				c.Dist("nest:forEach-with-custom-variable-as-operation-of:" + p.Layers[k-1].Kind)
+			}
+		}
+		c.Dist("nest:kinds:" + shape)
+		c.Dist("nest:read:" + p.Read + ":" + p.Place)
+		c.Dist(fmt.Sprintf("nest:reader-runs:%d", min(runs, 10)))
+		direct = func(run *c12RunRes, v string) {
+			got := c14Project(run.tr)
+			// "forEach runs its body once per item, in item order, with the loop variable bound to that item" — at
+			// every level of nesting: "the trace of (item, operation) pairs equals items x body in order up to the failure"
+			c.Direct("nested-trace-equals-items-x-body"+v, canon(got) == canon(want), map[string]any{"got": got, "want": want})
+			var gotErrs, wantErrs []bool
+			for i, e := range run.errs {
+				gotErrs = append(gotErrs, e != nil)
+				wantErrs = append(wantErrs, failed && i == len(run.errs)-1)
+			}
+			c.Direct("nested-error-iff-failure"+v, canon(gotErrs) == canon(wantErrs), map[string]any{"got": gotErrs, "want": wantErrs, "errs": fmt.Sprint(run.errs)})
+			// "when either finishes, normally or with an error, the variable or the arguments are gone"
+			for k, l := range p.Layers {
+				switch l.Kind {
+				case "foreach":
+					c.Direct("forEach-variable-gone"+v, run.data.Lookup(c14VarName(l.Var)) == nil, map[string]any{"var": c14VarName(l.Var), "data": run.dataWire()})
+				case "call":
+					c.Direct("call-arguments-gone"+v, run.data.Lookup(fmt.Sprintf("cl%d", k)) == nil, map[string]any{"path": fmt.Sprintf("cl%d", k), "data": run.dataWire()})
+				}
+			}
+			c.Direct("call-arguments-gone"+v, run.data.Lookup("args") == nil, map[string]any{"path": "args", "data": run.dataWire()})
+			// "… and the mechanism itself has disturbed no other data"
+			c.Direct("nested-no-other-data-disturbed"+v, c14FlatWire(p.strip(run.dataWire())) == c14FlatWire(p.strip(data)),
+				map[string]any{"before": data, "after": run.dataWire()})
+		}
 	case "defs":
 		var p c14Defs
 		if err := json.Unmarshal(raw, &p); err != nil {
@@ -1199,6 +1253,9 @@ func c14Eval(c *Ctx, kind string, raw []byte) {
 	if !c.searchMode {
 		model = c.Model("seq", map[string]any{"data": data, "prog": prog, "fuel": c14Fuel})
 	}
+	// the independent Go reference interpreter (c12_ref.go): items x body in order, scoped variables and
+	// arguments, loop order, registry rules — answers only inside its domain
+	ref := refExecSeq(data, prog, refDefaultFns)
 	for _, variant := range []string{"struct", "yaml"} {
 		acts := make([]pipeline.Action, 0, len(prog))
 		ok := true
@@ -1233,6 +1290,7 @@ func c14Eval(c *Ctx, kind string, raw []byte) {
 			continue
 		}
 		direct(run, "("+variant+")")
+		c12RefDirect(c, ref, run, 0, "("+variant+")")
 		mm, _ := model.(map[string]any)
 		switch {
 		case c.searchMode:
